@@ -110,26 +110,26 @@ fn in_thorough(t: Tier) -> bool {
 
 pub fn registry() -> Vec<Prop> {
     vec![
-        Prop { id: "C01", run: c01::run, judge: c01::judge, both_profiles: in_thorough, dbg_lean: true, trace_rerun: false, promises_return: true },
-        Prop { id: "C02", run: c02::run_c02, judge: c02::judge, both_profiles: in_thorough, dbg_lean: true, trace_rerun: false, promises_return: true },
-        Prop { id: "C03", run: c02::run_c03, judge: c02::judge, both_profiles: in_thorough, dbg_lean: true, trace_rerun: false, promises_return: true },
+        Prop { id: "C01", run: c01::run, judge: c01::judge, both_profiles: always, dbg_lean: true, trace_rerun: false, promises_return: true },
+        Prop { id: "C02", run: c02::run_c02, judge: c02::judge, both_profiles: always, dbg_lean: true, trace_rerun: false, promises_return: true },
+        Prop { id: "C03", run: c02::run_c03, judge: c02::judge, both_profiles: always, dbg_lean: true, trace_rerun: false, promises_return: true },
         Prop { id: "C04", run: c04::run, judge: c04::judge, both_profiles: in_thorough, dbg_lean: false, trace_rerun: false, promises_return: true },
         Prop { id: "C05", run: c05::run, judge: c05::judge, both_profiles: always, dbg_lean: true, trace_rerun: false, promises_return: true },
-        Prop { id: "C06", run: c06::run, judge: c06::judge, both_profiles: in_thorough, dbg_lean: false, trace_rerun: false, promises_return: true },
+        Prop { id: "C06", run: c06::run, judge: c06::judge, both_profiles: always, dbg_lean: false, trace_rerun: false, promises_return: true },
         Prop { id: "C07", run: c07::run, judge: c07::judge, both_profiles: in_thorough, dbg_lean: false, trace_rerun: true, promises_return: true },
         Prop { id: "C08", run: c08::run, judge: c08::judge, both_profiles: in_thorough, dbg_lean: false, trace_rerun: false, promises_return: true },
-        Prop { id: "C09", run: c09::run, judge: c09::judge, both_profiles: in_thorough, dbg_lean: true, trace_rerun: false, promises_return: true },
-        Prop { id: "C10", run: c10::run, judge: c10::judge, both_profiles: in_thorough, dbg_lean: false, trace_rerun: true, promises_return: true },
-        Prop { id: "C11", run: c11::run, judge: c11::judge, both_profiles: in_thorough, dbg_lean: true, trace_rerun: true, promises_return: true },
-        Prop { id: "C12", run: c12::run, judge: c12::judge, both_profiles: in_thorough, dbg_lean: false, trace_rerun: true, promises_return: true },
-        Prop { id: "C13", run: c13::run, judge: c13::judge, both_profiles: in_thorough, dbg_lean: false, trace_rerun: true, promises_return: true },
-        Prop { id: "C14", run: c14::run, judge: c14::judge, both_profiles: in_thorough, dbg_lean: false, trace_rerun: true, promises_return: true },
+        Prop { id: "C09", run: c09::run, judge: c09::judge, both_profiles: always, dbg_lean: true, trace_rerun: false, promises_return: true },
+        Prop { id: "C10", run: c10::run, judge: c10::judge, both_profiles: always, dbg_lean: false, trace_rerun: true, promises_return: true },
+        Prop { id: "C11", run: c11::run, judge: c11::judge, both_profiles: always, dbg_lean: true, trace_rerun: true, promises_return: true },
+        Prop { id: "C12", run: c12::run, judge: c12::judge, both_profiles: always, dbg_lean: false, trace_rerun: true, promises_return: true },
+        Prop { id: "C13", run: c13::run, judge: c13::judge, both_profiles: always, dbg_lean: false, trace_rerun: true, promises_return: true },
+        Prop { id: "C14", run: c14::run, judge: c14::judge, both_profiles: always, dbg_lean: false, trace_rerun: true, promises_return: true },
         Prop { id: "C15", run: c15::run, judge: c15::judge, both_profiles: in_thorough, dbg_lean: false, trace_rerun: false, promises_return: true },
-        Prop { id: "C16", run: c16::run, judge: c16::judge, both_profiles: in_thorough, dbg_lean: false, trace_rerun: true, promises_return: true },
+        Prop { id: "C16", run: c16::run, judge: c16::judge, both_profiles: always, dbg_lean: false, trace_rerun: true, promises_return: true },
         Prop { id: "C17", run: c17::run, judge: c17::judge, both_profiles: always, dbg_lean: false, trace_rerun: true, promises_return: true },
-        Prop { id: "C18", run: c18::run, judge: c18::judge, both_profiles: in_thorough, dbg_lean: false, trace_rerun: true, promises_return: true },
-        Prop { id: "C19", run: c19::run, judge: c19::judge, both_profiles: in_thorough, dbg_lean: false, trace_rerun: true, promises_return: true },
-        Prop { id: "C20", run: c20::run, judge: c20::judge, both_profiles: in_thorough, dbg_lean: false, trace_rerun: true, promises_return: true },
+        Prop { id: "C18", run: c18::run, judge: c18::judge, both_profiles: always, dbg_lean: false, trace_rerun: true, promises_return: true },
+        Prop { id: "C19", run: c19::run, judge: c19::judge, both_profiles: always, dbg_lean: false, trace_rerun: true, promises_return: true },
+        Prop { id: "C20", run: c20::run, judge: c20::judge, both_profiles: always, dbg_lean: false, trace_rerun: true, promises_return: true },
     ]
 }
 
@@ -208,6 +208,70 @@ pub fn cold_start_probe(ctx: &Ctx, rep: &mut Report, rounds: usize) {
         }
     }
     rep.extra.push(("cold_start_probe".into(), Json::obj().with("fresh_processes", Json::U(rounds as u64)).with("threads_per_process", Json::U(16)).with("first_calls_checked", Json::U(probes)).with("note", Json::s("schedule SAMPLE, not exhaustive and not part of the deciding enumeration: threads released from a barrier make their first calls into the crate at the same time"))));
+}
+
+/// Cold repetition probe: one fresh single-threaded process per item, in which the item is judged `reps` times in a
+/// row - whatever the call count at which process-wide state changes (a table filled block by block, a counter, a
+/// warm-up threshold), the call made at that moment is about this item. Deterministic; depth = `reps` calls of ONE item.
+pub fn cold_repeat_probe(ctx: &Ctx, rep: &mut Report, n_items: usize, reps: usize) {
+    let exe = std::env::current_exe().unwrap_or_else(|_| monitor::machinery_fail("cannot locate the harness binary"));
+    let t0 = std::time::Instant::now();
+    let mut acc = crate::engine::evidence::Acc::new(1);
+    let mut kids = Vec::new();
+    for i in 0..n_items {
+        let out = std::env::temp_dir().join(format!("ckc-mc-rep-{}-{}-{}.json", ctx.id, std::process::id(), i));
+        let child = std::process::Command::new(&exe)
+            .args(["run", &ctx.id, ctx.tier.name(), "--child", out.to_str().unwrap(), "--probe"])
+            .env("CKC_MC_QUIET", "1")
+            .env("CKC_MC_PROBE_ITEM", i.to_string())
+            .env("CKC_MC_PROBE_REPS", reps.to_string())
+            .spawn()
+            .unwrap_or_else(|_| monitor::machinery_fail("cannot spawn a repetition probe"));
+        kids.push((child, out));
+        if kids.len() >= 16 {
+            collect_probe(&mut kids, rep, &mut acc);
+        }
+    }
+    collect_probe(&mut kids, rep, &mut acc);
+    rep.add_space(&format!("cold repetition: {} representative cases, each judged {} times in a row in its own fresh single-threaded process", n_items, reps), &acc, t0, "call-count dependent process-wide state (progressively filled tables, warm-up thresholds)");
+}
+fn collect_probe(kids: &mut Vec<(std::process::Child, std::path::PathBuf)>, rep: &mut Report, acc: &mut crate::engine::evidence::Acc) {
+    for (mut child, out) in kids.drain(..) {
+        match child.wait() {
+            Ok(s) if s.success() => {
+                let text = std::fs::read_to_string(&out).unwrap_or_else(|_| monitor::machinery_fail("repetition probe report missing"));
+                let _ = std::fs::remove_file(&out);
+                let j = Json::parse(&text).unwrap_or_else(|e| monitor::machinery_fail(&format!("repetition probe report unreadable: {}", e)));
+                acc.cases += j.get("evaluations").and_then(|x| x.as_u64()).unwrap_or(0);
+                acc.calls += j.get("evaluations").and_then(|x| x.as_u64()).unwrap_or(0);
+                acc.nontrivial += 1;
+                if let Some(vs) = j.get("viols").and_then(|v| v.as_arr()) {
+                    for v in vs {
+                        if let Ok(v) = Violation::from_json(v) {
+                            rep.violate(v);
+                        }
+                    }
+                }
+            }
+            Ok(s) if s.code() == Some(1) => std::process::exit(1),
+            _ => monitor::machinery_fail("a repetition probe process failed"),
+        }
+    }
+}
+/// Child side: Some((item index, repetitions)) when this process is a repetition probe.
+pub fn repeat_probe_request() -> Option<(usize, usize)> {
+    let i = std::env::var("CKC_MC_PROBE_ITEM").ok()?.parse().ok()?;
+    let r = std::env::var("CKC_MC_PROBE_REPS").ok().and_then(|x| x.parse().ok()).unwrap_or(512);
+    Some((i, r))
+}
+pub fn repeat_probe_body(rep: &mut Report, judge: Judge, item: &Case, reps: usize) {
+    for k in 0..reps {
+        rep.evaluations += 1;
+        if let Verdict::Violated { class, expected, observed } = judge(item) {
+            rep.violate(Violation { class: format!("call-count-dependent:{}", class), case: item.clone(), expected, observed: format!("{} [at repetition {} of this case in a fresh process]", observed, k + 1), profile: profile_name().to_string(), trace: vec![format!("the same case judged {} times before", k)] });
+            break;
+        }
+    }
 }
 
 /// Body of one probe process: runs `first_call(i)` on 16 threads released together; returns the violations found.
